@@ -173,12 +173,21 @@ class G:
 
     def c_verb(self):
         delim = self.rng.choice('|+!/')
-        body = ''.join(self.rng.choice('abc xyz\\{}$%&#_^~') for _ in range(self.rng.randint(0, 6)))
-        body = body.replace(delim, 'd')
+        body = ''.join(self.rng.choice('ABC XYZ\\{}$%&#_^~') for _ in range(self.rng.randint(0, 6)))
+        body = body.replace(delim, 'D')
         return {'t': 'verb', 'delim': delim, 'body': body}
 
+    def optarg(self):
+        """content of an optional argument: plain words (a nested `]` would close it)"""
+        items = []
+        for i in range(self.rng.randint(1, 2)):
+            if i:
+                items.append({'t': 'ws', 's': ' '})
+            items.append(self.word())
+        return {'t': 'seq', 'items': items}
+
     def c_cite(self):
-        return {'t': 'cite', 'key': self.names.word(), 'opt': self.arg(1) if self.rng.random() < 0.4 else None}
+        return {'t': 'cite', 'key': self.names.word(), 'opt': self.optarg() if self.rng.random() < 0.4 else None}
 
     def c_ltmacro(self):
         k = self.rng.choice(['add', 'alter', 'skip'])
@@ -244,12 +253,18 @@ class G:
         return {'t': 'env', 'name': name, 'known': True, 'arg': arg, 'body': self.seq(self.rng.randint(1, 4), allow_par=False)}
 
     def c_verbatim(self):
-        body = '\n' + '\n'.join(''.join(self.rng.choice('ab xy\\{}$%&#_^~') for _ in range(self.rng.randint(0, 8)))
+        body = '\n' + '\n'.join(''.join(self.rng.choice('AB XY\\{}$%&#_^~') for _ in range(self.rng.randint(0, 8)))
                                  for _ in range(self.rng.randint(1, 3))) + '\n'
         return {'t': 'verbatim', 'body': body}
 
     def c_skip(self):
-        return {'t': 'skip', 'body': self.seq(self.rng.randint(1, 3))}
+        if getattr(self, 'in_skip', False):
+            return self.word()
+        self.in_skip = True
+        try:
+            return {'t': 'skip', 'body': self.seq(self.rng.randint(1, 3))}
+        finally:
+            self.in_skip = False
 
     def c_newcommand(self):
         rng = self.rng
@@ -299,7 +314,7 @@ class G:
         args = []
         for k in range(m['nargs']):
             if k == 0 and m['opt'] is not None:
-                args.append(self.arg(1) if self.rng.random() < 0.5 else None)
+                args.append(self.optarg() if self.rng.random() < 0.5 else None)
             else:
                 args.append(self.arg(self.rng.randint(1, 2)))
         return {'t': 'call', 'm': m, 'args': args, 'single': self.rng.random() < 0.15,
@@ -307,10 +322,10 @@ class G:
 
     def c_theorem(self):
         return {'t': 'theorem', 'env': 'thm' + self.rng.choice('abc'), 'title': self.names.word(),
-                'opt': self.arg(1) if self.rng.random() < 0.4 else None, 'body': self.seq(self.rng.randint(1, 3), allow_par=False)}
+                'opt': self.optarg() if self.rng.random() < 0.4 else None, 'body': self.seq(self.rng.randint(1, 3), allow_par=False)}
 
     def c_proof(self):
-        return {'t': 'proof', 'opt': self.arg(1) if self.rng.random() < 0.4 else None,
+        return {'t': 'proof', 'opt': self.optarg() if self.rng.random() < 0.4 else None,
                 'body': self.seq(self.rng.randint(1, 3), allow_par=False)}
 
     def c_selectlanguage(self):
